@@ -946,9 +946,14 @@ def _r3_hotspot(ctx):
     ok = False
     if len(seed) == 1:
         base = seed[0].value.func.value
-        ok = isinstance(base, ast.Subscript) and isinstance(base.value, ast.Attribute) and base.value.attr == "loc" and \
-            isinstance(base.slice, ast.Tuple) and isinstance(base.slice.elts[0], ast.Name) and \
-            base.slice.elts[0].id == rparam and seed[0].value.func.attr == "idxmax"
+        # the label of the maximum of the values restricted to the remaining mask:  frame.loc[remaining, key].idxmax(),
+        # values[remaining].idxmax()  or  values.loc[remaining].idxmax()
+        sl = base.slice if isinstance(base, ast.Subscript) else None
+        first = sl.elts[0] if isinstance(sl, ast.Tuple) and sl.elts else sl
+        ok = isinstance(base, ast.Subscript) and isinstance(first, ast.Name) and first.id == rparam and \
+            seed[0].value.func.attr == "idxmax" and not isinstance(base.value, ast.Attribute) or \
+            (isinstance(base, ast.Subscript) and isinstance(first, ast.Name) and first.id == rparam and
+             seed[0].value.func.attr == "idxmax" and isinstance(base.value, ast.Attribute) and base.value.attr == "loc")
     if ok:
         ctx.holds(hs, seed[0], "seed = label of the maximum over the remaining entries")
     else:
